@@ -45,6 +45,9 @@ var csiFinal = map[string]string{
 var fixedBytes = map[string]string{
 	"CR": "\r", "LF": "\n", "IND": "\x1bD", "RI": "\x1bM", "NEL": "\x1bE", "DECSC": "\x1b7", "DECRC": "\x1b8",
 	"ALTON": "\x1b[?1049h", "ALTOFF": "\x1b[?1049l", "NOP": "",
+	// xterm's other alternate-screen modes and its private-mode form of save / restore cursor
+	"ALT47ON": "\x1b[?47h", "ALT47OFF": "\x1b[?47l", "ALT1047ON": "\x1b[?1047h", "ALT1047OFF": "\x1b[?1047l",
+	"SC1048": "\x1b[?1048h", "RC1048": "\x1b[?1048l",
 }
 
 func joinPs(ps []int) string {
@@ -218,6 +221,7 @@ func dedupe(ops []Op) []Op {
 // of every function of the vocabulary, plus over-long counts.
 func Tiny(rows, cols int) []Op {
 	return dedupe([]Op{T("x"), T("世"), P("CR"), P("LF"), P("RI"), P("DECSC"), P("DECRC"), P("ALTON"), P("ALTOFF"),
+		P("ALT47ON"), P("ALT47OFF"), P("ALT1047OFF"), S([]int{21}),
 		P("CUP"), P("CUP", 2, 2), P("CUU"), P("CUD"), P("CUF"), P("CUB"), P("ED"), P("ED", 1), P("ED", 2), P("EL"), P("EL", 1),
 		P("ECH", 2), P("ICH"), P("DCH"), P("IL"), P("DL"), P("SU"), P("SD"), P("DECSTBM", 1, 2), P("DECSTBM", 2, rows),
 		P("DECSTBM"), S([]int{41}), P("IL", rows+1), P("DL", rows+1), P("ICH", cols+1), P("DCH", cols+1), P("CNL"), P("CHA", cols)})
@@ -229,7 +233,8 @@ func Tiny(rows, cols int) []Op {
 func Alphabet(rows, cols int, reduced bool) []Op {
 	var a []Op
 	a = append(a, T("x"), T("世"))
-	for _, o := range []string{"CR", "LF", "IND", "RI", "NEL", "DECSC", "DECRC", "ALTON", "ALTOFF"} {
+	for _, o := range []string{"CR", "LF", "IND", "RI", "NEL", "DECSC", "DECRC", "ALTON", "ALTOFF",
+		"ALT47ON", "ALT47OFF", "ALT1047ON", "ALT1047OFF", "SC1048", "RC1048"} {
 		a = append(a, P(o))
 	}
 	for _, o := range nOps {
@@ -260,12 +265,13 @@ func Alphabet(rows, cols int, reduced bool) []Op {
 		P("CUP", 2), P("CUP", -1, 2), P("CUP", 2, -1), P("HVP"), P("HVP", 2, 2))
 	a = append(a, P("DECSTBM"), P("DECSTBM", 0, 0), P("DECSTBM", 1, 2), P("DECSTBM", 2, rows), P("DECSTBM", 2, 2),
 		P("DECSTBM", 1, rows+1), P("DECSTBM", 2), P("DECSTBM", rows, 1), P("DECSTBM", -1, 2))
-	a = append(a, S(), S([]int{41}), S([]int{7}))
+	a = append(a, S(), S([]int{41}), S([]int{7}), S([]int{21}))
 	if reduced {
 		var b []Op
 		for _, o := range a {
 			switch {
-			case o.Op == "HVP", o.Op == "IND", o.Op == "CUP" && len(o.Ps) == 2 && o.Ps[0] == 1 && o.Ps[1] == 1,
+			case o.Op == "HVP", o.Op == "IND", o.Op == "ALT1047ON", o.Op == "SC1048", o.Op == "RC1048",
+				o.Op == "CUP" && len(o.Ps) == 2 && o.Ps[0] == 1 && o.Ps[1] == 1,
 				(o.Op == "ED" || o.Op == "EL") && len(o.Ps) == 1 && o.Ps[0] == 0:
 				continue
 			}
@@ -299,6 +305,9 @@ func Prefixes(rows, cols int) map[string][]Op {
 		"wrap":  {fill(rows, cols), S([]int{42}), P("CUP", mid, 1), T(strings.Repeat("w", cols))},
 		"wide":  {fill(rows, cols), S([]int{45}), P("CUP", mid, 1), T(strings.Repeat("界", cols/2)), P("CUP", mid, 2)},
 		"alt":   {fill(rows, cols), S([]int{46}), P("CUP", mid, cols), P("ALTON"), T("A"), P("DECSC"), P("CUP", 1, 1)},
+		// on the alternate screen through mode 47, which already holds text from an earlier visit
+		"alt47": {fill(rows, cols), P("ALT47ON"), S([]int{45}), T("B"), P("ALT47OFF"), S([]int{46}), P("CUP", mid, cols), P("SC1048"),
+			P("ALT1047ON"), P("CUP", 1, cols)},
 	}
 	if rows >= 3 {
 		p["region"] = []Op{fill(rows, cols), P("DECSTBM", 2, rows-1), S([]int{43}), P("CUP", 2, (cols+1)/2)}
@@ -384,7 +393,7 @@ func RandSGR(rng *rand.Rand) Op {
 		case 0:
 			ps = append(ps, []int{0})
 		case 1:
-			ps = append(ps, []int{[]int{1, 2, 3, 5, 7, 8, 9}[rng.Intn(7)]})
+			ps = append(ps, []int{[]int{1, 2, 3, 5, 7, 8, 9, 21}[rng.Intn(8)]})
 		case 2:
 			ps = append(ps, []int{[]int{22, 23, 24, 25, 27, 28, 29}[rng.Intn(7)]})
 		case 3:
@@ -479,9 +488,9 @@ func GenRandom(rng *rand.Rand, maxCols, maxRows, minLen, maxLen int) *Scn {
 			}
 			sc.Ops = append(sc.Ops, Op{Op: "DECSTBM", Ps: ps})
 		case x < 86:
-			sc.Ops = append(sc.Ops, P([]string{"DECSC", "DECRC"}[rng.Intn(2)]))
+			sc.Ops = append(sc.Ops, P([]string{"DECSC", "DECRC", "DECSC", "DECRC", "SC1048", "RC1048"}[rng.Intn(6)]))
 		case x < 89:
-			sc.Ops = append(sc.Ops, P([]string{"ALTON", "ALTOFF"}[rng.Intn(2)]))
+			sc.Ops = append(sc.Ops, P([]string{"ALTON", "ALTOFF", "ALTON", "ALTOFF", "ALT47ON", "ALT47OFF", "ALT1047ON", "ALT1047OFF"}[rng.Intn(8)]))
 		default:
 			sc.Ops = append(sc.Ops, RandSGR(rng))
 		}
@@ -512,6 +521,15 @@ func Fixed() []*Scn {
 		f("wide-over-head", 4, 2, T("世a"), P("CUP", 1, 1), T("x")),
 		f("wide-over-tail", 4, 2, T("世a"), P("CUP", 1, 2), T("x")),
 		f("alt-bg", 3, 2, T("ab"), S([]int{41}), P("ALTON"), T("c"), P("ALTOFF"), S(), P("ALTON")),
+		f("alt47", 4, 3, T("AB"), P("CR"), P("LF"), T("CD"), P("ALT47ON"), P("CUP"), P("ED", 2), T("XYZ"), P("ALT47OFF"), T("e"),
+			P("ALT47ON"), T("f"), P("ALT47OFF")),
+		f("alt1047", 4, 3, T("AB"), P("CR"), P("LF"), T("CD"), P("ALT1047ON"), P("CUP"), T("XYZ"), S([]int{44}), P("ALT1047OFF"), T("e"),
+			P("ALT1047ON"), T("f"), P("ALT47OFF"), P("ALT1047OFF")),
+		f("alt-mixed", 4, 3, T("AB"), P("ALT47ON"), T("xy"), P("ALTON"), T("z"), P("ALT47OFF"), T("C"), P("ALT1047ON"), P("ALTOFF"),
+			P("ALT47ON"), T("w"), P("ALT1047OFF"), P("ALTON"), P("ALT1047OFF")),
+		f("sc1048", 4, 3, P("CUP", 2, 3), S([]int{1}), P("SC1048"), P("CUP"), S(), P("RC1048"), T("x"), P("DECRC"), P("ALTON"), P("RC1048"),
+			P("CUP", 3, 2), P("SC1048"), P("ALTOFF"), P("ALT47ON"), P("DECRC")),
+		f("sgr21", 4, 2, S([]int{21}), T("X"), S([]int{24}), T("y"), S([]int{4}, []int{21}), T("z"), S([]int{21}, []int{4, 3}), T("w")),
 		f("decrc-none", 3, 2, T("ab"), S([]int{1}), P("DECRC")),
 		f("sd-zero", 3, 3, T("abcdefghi"), P("SD", 0), P("SU", 0)),
 		f("nel-bottom", 3, 2, T("abc"), P("CUP", 2, 2), P("NEL"), P("CNL", 1), P("CPL", 5)),
@@ -522,8 +540,8 @@ func Fixed() []*Scn {
 // attribute / colour setting followed by every resetting code (and SGR 0),
 // with a character printed after each so that the pen reaches the grid.
 func SgrChains() []*Scn {
-	sets := [][][]int{{{1}}, {{2}}, {{3}}, {{4}}, {{5}}, {{7}}, {{8}}, {{9}}, {{4, 3}}, {{4, 5}}, {{31}}, {{42}}, {{95}}, {{103}},
-		{{38}, {5}, {100}}, {{48}, {2}, {1}, {2}, {3}}, {{58, 5, 7}}, {{38, 2, -1, 9, 8, 7}}, {{1}, {2}, {3}, {4}, {5}, {7}, {8}, {9}}}
+	sets := [][][]int{{{1}}, {{2}}, {{3}}, {{4}}, {{5}}, {{7}}, {{8}}, {{9}}, {{21}}, {{4, 3}}, {{4, 5}}, {{31}}, {{42}}, {{95}}, {{103}},
+		{{38}, {5}, {100}}, {{48}, {2}, {1}, {2}, {3}}, {{58, 5, 7}}, {{38, 2, -1, 9, 8, 7}}, {{1}, {2}, {3}, {4}, {5}, {7}, {8}, {9}}, {{38}, {5}, {21}, {21}, {58}, {5}, {21}}}
 	resets := [][]int{{0}, {22}, {23}, {24}, {25}, {27}, {28}, {29}, {39}, {49}, {59}, {4, 0}}
 	var out []*Scn
 	for _, s := range sets {
